@@ -206,6 +206,11 @@ type Conn struct {
 	creationTime monotime.Time
 	// The idle timeout is set based on the max of the time we received the last packet...
 	lastPacketReceivedTime monotime.Time
+
+	// [UQUIC] uStreamReceiveWindow returns the receive window a spec-driven client advertised
+	// for the given stream (its transport parameters have one value per stream type).
+	// nil for connections that advertise the Config's single value.
+	uStreamReceiveWindow func(protocol.StreamID) protocol.ByteCount
 	// ... and the time we sent a new ack-eliciting packet after receiving a packet.
 	firstAckElicitingPacketAfterIdleSentTime monotime.Time
 	// pacingDeadline is the time when the next packet should be sent
@@ -2942,11 +2947,20 @@ func (c *Conn) newFlowController(id protocol.StreamID) flowcontrol.StreamFlowCon
 			initialSendWindow = c.peerParams.InitialMaxStreamDataBidiLocal
 		}
 	}
+	initialReceiveWindow := protocol.ByteCount(c.config.InitialStreamReceiveWindow)
+	maxReceiveWindow := protocol.ByteCount(c.config.MaxStreamReceiveWindow)
+	// [UQUIC] A spec-driven client advertises one receive window per stream type.
+	if c.uStreamReceiveWindow != nil {
+		if w := c.uStreamReceiveWindow(id); w > 0 {
+			initialReceiveWindow = w
+			maxReceiveWindow = max(maxReceiveWindow, w)
+		}
+	}
 	return flowcontrol.NewStreamFlowController(
 		id,
 		c.connFlowController,
-		protocol.ByteCount(c.config.InitialStreamReceiveWindow),
-		protocol.ByteCount(c.config.MaxStreamReceiveWindow),
+		initialReceiveWindow,
+		maxReceiveWindow,
 		initialSendWindow,
 		c.rttStats,
 		c.logger,
